@@ -30,6 +30,9 @@ mk MC_LouvainB_t_mod4w.cfg   4 modularity    FALSE 3 4 V012 FALSE TRUE
 mk MC_LouvainB_t_nsym4.cfg   4 negative_sym  FALSE 5 4 VS   FALSE TRUE
 mk MC_LouvainB_t_nasym4.cfg  4 negative_asym FALSE 1 1 VS   FALSE TRUE
 mk MC_LouvainB_t_moddir4.cfg 4 modularity    TRUE  1 1 V01  FALSE TRUE
+mk MC_LouvainB_q_mod3d.cfg   3 modularity    FALSE 1 1 V012 FALSE TRUE; echo "CONSTANT DiagVals <- DiagVals01" >> MC_LouvainB_q_mod3d.cfg
+mk MC_LouvainB_t_moddir3d.cfg 3 modularity   TRUE  3 4 V01  FALSE TRUE; echo "CONSTANT DiagVals <- DiagVals01" >> MC_LouvainB_t_moddir3d.cfg
+mk MC_LouvainB_t_potts3d.cfg 3 potts         FALSE 5 4 V01  FALSE TRUE; echo "CONSTANT DiagVals <- DiagVals01" >> MC_LouvainB_t_potts3d.cfg
 mk Gen_LouvainB_mod5.cfg     5 modularity    FALSE 1 1 V01  TRUE TRUE
 mk Gen_LouvainB_moddir4.cfg  4 modularity    TRUE  5 4 V01  TRUE TRUE
 mk Gen_LouvainB_potts5.cfg   5 potts         FALSE 3 4 V01  TRUE TRUE
